@@ -1,6 +1,10 @@
 import NA.Proofs.C05Final
 import NA.Proofs.C05Restore
 import NA.Proofs.C05Parse
+import NA.Proofs.C05Whole
+import NA.Proofs.C05Resume
+import NA.Proofs.C05Equiv
+import NA.Proofs.C05Device
 /-!
 # C05 — Linux approve converges for static routes and iptables
 
@@ -85,6 +89,48 @@ theorem linux_routes_kernel_strict (a b : List Route) (ha : (keys a).Nodup)
   intro t ht
   obtain ⟨am, P, st⟩ := hst t ht
   exact st.oneHop h1 h2
+
+/-- **Interrupted approve (C10 for Linux routes).**  Stop the script after ANY number `k` of lines
+(a line is one packet: a joined `del \N add` is never split).  The kernel table is then still a set
+`t`, and planning again from any reading `a'` of that table (any order of the lines the device
+prints) and executing that plan ends in exactly the target's routes. -/
+theorem linux_routes_resume (a b : List Route) (ha : (keys a).Nodup) (k : Nat) :
+    ∃ t, execScript (keys a) (((diffRoutes a b).take k).map cmdsOf) = some t ∧ t.Nodup ∧
+      ∀ a' : List Route, (keys a').Nodup → (∀ x, x ∈ keys a' ↔ x ∈ t) →
+        ∃ t', execScript (keys a') ((diffRoutes a' b).map cmdsOf) = some t' ∧ t'.Nodup ∧ ∀ x, x ∈ t' ↔ x ∈ keys b := by
+  obtain ⟨hn, hs, hk⟩ := target_spec b
+  obtain ⟨tr, h1, _, _, hst⟩ := core_ok a b _ ha hn hs hk
+  have hp := execScript_take (keys a) ((diffRoutes a b).map cmdsOf) tr h1 k
+  rw [List.map_take]
+  refine ⟨_, hp, ?_, ?_⟩
+  · rcases take_getLastD_mem tr k (keys a) with e | hm
+    · rw [e]; exact ha
+    · obtain ⟨am, P, st⟩ := hst _ hm; exact st.nodup
+  · intro a' ha' _
+    exact linux_routes_converge a' b ha'
+
+/-- The same when the session dies INSIDE a packet: after any prefix of the single commands (the
+`del` of a joined line executed, its `add` not) the table is still a set, so planning again from it
+converges (`linux_routes_converge` asks nothing else of the device). -/
+theorem linux_routes_resume_cmds (a b : List Route) (ha : (keys a).Nodup) (k : Nat) :
+    ∃ t, execLine (keys a) ((((diffRoutes a b).map cmdsOf).flatten).take k) = some t ∧ t.Nodup ∧
+      ∀ a' : List Route, keys a' = t →
+        ∃ t', execScript (keys a') ((diffRoutes a' b).map cmdsOf) = some t' ∧ t'.Nodup ∧ ∀ x, x ∈ t' ↔ x ∈ keys b := by
+  obtain ⟨t0, h0, _, _⟩ := linux_routes_converge a b ha
+  rw [execScript_flatten] at h0
+  obtain ⟨u, hu, hun⟩ := execLine_take _ _ _ h0 ha k
+  exact ⟨u, hu, hun, fun a' e => linux_routes_converge a' b (e ▸ hun)⟩
+
+/-- `parseRoute` reads the line `ip route show` prints for a static route (`routeShow`: host routes
+without `/32`, `default` for 0.0.0.0/0, optional `dev IF`) back to exactly that route — for all
+dotted-decimal addresses and next hops, every prefix length 0…32 and every interface name. -/
+theorem route_show_roundtrip (ip hop : Str) (n : Nat) (dev : Option Str) (hip : ipTok ip = true)
+    (hhop : ipTok hop = true) (hn : n ≤ 32) (hdev : ∀ d, dev = some d → Tok d) :
+    ∃ r : Route, parseRoute (s "ip route add " ++ routeShow (ip, Int.ofNat n, hop) dev) = .ok (some r) ∧
+      r.key = (ip, Int.ofNat n, hop) :=
+  parseRoute_routeShow ip hop n dev hip hhop hn hdev
+
+example : ipTok (s "10.1.11.0") = true ∧ ipTok (s "10.10.1.6") = true ∧ Tok (s "bond0.12") := by decide
 
 /-! ## iptables: compare -/
 
@@ -220,6 +266,40 @@ grammar since the repair of F-C05s (before it the device's map had `--tcp-flags`
 theorem kernel_roundtrip_syn : RuleOK {} [.jump (s "ACCEPT"), .proto .no .tcp false false, .syn false false] := by
   decide
 
+/-! ## iptables: the whole table, at the text level -/
+
+/-- **Whole-table idempotence** (`table_idempotent`): for every target inside the class and every
+device state — the code reads the target text; loading the file it prints succeeds; the device then
+holds exactly the target's chains (name order), policies and rules for the target's tables and
+leaves every other table alone; and what such a device prints (`iptables-save`: comment lines,
+`[0:0]` counters, kernel spelling) is read by the code to a rule set without any difference to
+the target. -/
+theorem iptables_table_idempotent (cfg : KCfg) (a : AState) (h : AStateOK cfg a) (st : KState) :
+    ∃ tb tb' st',
+      parseIPTables (userText a) = .ok tb ∧
+      restore st ((getIPTablesConfig tb).map toRLn) = some st' ∧
+      (∀ tbl ∈ a, st'.get tbl.name = some (kTableOf userWords (sortT tbl))) ∧
+      (∀ t, (∀ tbl ∈ a, tbl.name ≠ t) → st'.get t = st.get t) ∧
+      parseIPTables (saveText cfg (sortS a)) = .ok tb' ∧
+      diffIPTables tb' tb = .same :=
+  table_idempotent cfg a h st
+
+/-- The parser on the text of a rule set gives an explicitly known value (`mkTables`), in either
+spelling, with or without counters and comment lines. -/
+theorem iptables_parse_text (cfg : KCfg) (a : AState) (h : AStateOK cfg a) :
+    parseIPTables (userText a) = .ok (mkTables userOpts a) ∧
+    parseIPTables (saveText cfg a) = .ok (mkTables (kernelOpts cfg) a) := by
+  constructor
+  · have := parse_file [] (by simp) userOpts a (stateOK_of cfg a h userOpts (spell_user cfg)) [] [] (by simp) (by simp)
+    rw [userText_eq]; simpa using this
+  · rw [saveText_eq]
+    exact parse_file [s "[0:0]"] (by intro x hx; simp at hx; rw [hx]; decide) (kernelOpts cfg) a
+      (stateOK_of cfg a h (kernelOpts cfg) (spell_kernel cfg)) _ _
+      (by intro x hx; simp at hx; rw [hx]
+          exact Or.inl ⟨(s "# Generated by iptables-save v1.8.7 on Tue Sep 30 00:00:00 2026").tail, by decide⟩)
+      (by intro x hx; simp at hx; rw [hx]
+          exact Or.inl ⟨(s "# Completed on Tue Sep 30 00:00:00 2026").tail, by decide⟩)
+
 /-! ## non-vacuity: the hypotheses are satisfiable on non-trivial values -/
 
 def exA : List Route :=
@@ -248,6 +328,89 @@ example : RuleOK {} exRule3 := by decide
 example : Stable (normalize [(s "-s", s "10.1.1.1/32"), (s "-p", s "TCP"), (s "-m", s "tcp"), (s "--dport", s "0:1023")]) := by
   decide
 
+/-! ## the device path (`LoadDevice`): whole outputs of `ip route show` and `iptables-save` -/
+
+/-- `getDeviceRoutes` reads the whole output of `ip route show` for any table of static routes back to
+exactly the table. -/
+theorem device_routes_roundtrip (l : List RouteEntry) (h : ∀ e ∈ l, e.ok) :
+    ∃ rs, deviceRoutes (unlines (l.map RouteEntry.show)) = .ok rs ∧ rs.map Route.key = l.map RouteEntry.key :=
+  deviceRoutes_show l h
+
+/-- `getDeviceIPTables` reads the whole output of `iptables-save` (comment lines — ignored since the
+repair of F-C05c —, counters, final newline) to the explicitly known rule set. -/
+theorem device_iptables_parse (cfg : KCfg) (a : AState) (h : AStateOK cfg a) :
+    deviceIPTables (unlines (saveText cfg a)) = .ok (mkTables (kernelOpts cfg) a) :=
+  deviceIPTables_save cfg a h
+
+/-- The second compare on the device path finds nothing: a device that holds the target's rule set
+and exactly the target's routes is read by `LoadDevice` without error and `diffConfig` yields no
+route command and no iptables difference. -/
+theorem device_second_compare_empty (cfg : KCfg) (a : AState) (h : AStateOK cfg a) (l : List RouteEntry)
+    (hl : ∀ e ∈ l, e.ok) (b : List Route) (hb : ∀ k, k ∈ l.map RouteEntry.key ↔ k ∈ keys b) :
+    ∃ dc, loadDevice (unlines (saveText cfg (sortS a))) (unlines (l.map RouteEntry.show)) = .ok dc ∧
+      (diffConfig dc { routes := b, iptables := mkTables userOpts a }).routes = [] ∧
+      (diffConfig dc { routes := b, iptables := mkTables userOpts a }).ipt = .same :=
+  device_compare_unchanged cfg a h l hl b hb
+
+/-- Before the repair of F-C05c the first line of every real `iptables-save` output made the device
+path abort: the old parser (no case for `#`) fell into `Unknown command`.  Witness for the model
+of the repaired code: the comment line is skipped. -/
+theorem device_comment_line_skipped :
+    parseIPTables [s "# Generated by iptables-save v1.8.7 on Tue Sep 30 00:00:00 2026", s "*filter", s ":INPUT DROP [0:0]", s "COMMIT"] =
+      .ok [(s "filter", [(s "INPUT", { policy := s "DROP" })])] := by rfl
+
+example : (⟨s "10.1.11.0", 24, s "10.10.1.6", some (s "eth0")⟩ : RouteEntry).ok := by
+  refine ⟨by decide, by decide, by decide, ?_⟩
+  intro d hd; cases hd; decide
+
+/-! ## rule-level soundness and completeness of the normal form -/
+
+/-- **normalize_sound** at rule level: two rules of the grammar whose target texts give equal option
+maps after normalisation have the same meaning (`semEqRule`: the same set of option meanings — match
+set and target; `-m <own protocol>` means nothing, a mark means its number).  Proved over the option
+lists of both rules (membership-wise), for all rules satisfying `RuleOK`. -/
+theorem normalize_sound (cfg : KCfg) (r1 r2 : ARule) (H1 : RuleOK cfg r1) (H2 : RuleOK cfg r2)
+    (h : PairsEq (normalize (pairsOf (userOpts r1) [])) (normalize (pairsOf (userOpts r2) []))) :
+    semEqRule cfg r1 r2 = true :=
+  normalize_sound_rule cfg r1 r2 H1 H2 h
+
+/-- **normalize_complete** for the kernel's respelling: what the kernel prints for a rule normalises
+to the same option map as the rule's target text. -/
+theorem normalize_complete (cfg : KCfg) (r : ARule) (H : RuleOK cfg r) :
+    PairsEq (normalize (pairsOf (kernelOpts cfg r) [])) (normalize (pairsOf (userOpts r) [])) :=
+  rule_roundtrip cfg r H
+
+/-- Normalisation is injective on what the kernel prints for well formed options: equal normalised
+entries, equal meaning (addresses, protocols, port ranges, state sets, marks, …). -/
+theorem normalize_injective_on_kernel (cfg : KCfg) (a1 a2 : AOpt) (w1 : a1.wf = true) (w2 : a2.wf = true)
+    (hk : nk a1 = nk a2) (hv : nv cfg a1 = nv cfg a2) : semEntry cfg a1 = semEntry cfg a2 :=
+  kentry_inj cfg a1 a2 w1 w2 hk hv
+
+/-- **No change is reported only for an equivalent device**, at the text level: what a device inside
+the class prints and a target inside the class are both read by the code, and if `diffIPTables`
+finds nothing, device and target are equivalent (same tables and chains, equal policies, rule by
+rule the same meaning). -/
+theorem iptables_same_only_if_equivalent (cfg : KCfg) (dev tgt : AState) (hd : AStateOK cfg dev)
+    (ht : AStateOK cfg tgt) :
+    ∃ tb' tb, parseIPTables (saveText cfg dev) = .ok tb' ∧ parseIPTables (userText tgt) = .ok tb ∧
+      (diffIPTables tb' tb = .same → semEq cfg dev tgt = true) :=
+  ⟨_, _, (iptables_parse_text cfg dev hd).2, (iptables_parse_text cfg tgt ht).1,
+    same_only_if_equiv cfg dev tgt hd ht⟩
+
+example : semEqRule {} exRule exRule = true ∧
+    semEqRule {} [.jump (s "ACCEPT"), .dport (.one (s "22")) 0 false, .proto .no .tcp false false]
+      [.jump (s "ACCEPT"), .dport (.one (s "23")) 0 false, .proto .no .tcp false false] = false := by decide
+
+example : (execLine (keys exA) ((((diffRoutes exA exB).map cmdsOf).flatten).take 2)).isSome = true := by decide
+
+def exState : AState :=
+  [{ name := s "filter", chains := [
+      { name := s "c1", policy := s "-", rules := [exRule3] },
+      { name := s "INPUT", policy := s "DROP", rules := [exRule, exRule2] }] }]
+
+example : AStateOK { protoNames := false } exState :=
+  ⟨by decide, by decide, by decide, by decide, by decide⟩
+
 def obligations : List Lean.Name := [
   ``linux_routes_converge, ``linux_routes_converge_unrepaired_counterexample,
   ``linux_routes_one_hop_per_dst, ``routes_covered_linux, ``linux_routes_kernel_strict,
@@ -257,6 +420,9 @@ def obligations : List Lean.Name := [
   ``normalize_sound_partial, ``normalize_sound_counterexample,
   ``kernel_roundtrip_partial, ``kernel_roundtrip_no_diff,
   ``kernel_roundtrip_counterexample, ``kernel_roundtrip_mask_counterexample, ``kernel_roundtrip_syn,
-  ``opt_roundtrip, ``parsePairs_words, ``getA_normalize]
+  ``opt_roundtrip, ``parsePairs_words, ``getA_normalize,
+  ``linux_routes_resume, ``linux_routes_resume_cmds, ``route_show_roundtrip, ``iptables_table_idempotent, ``iptables_parse_text,
+  ``device_routes_roundtrip, ``device_iptables_parse, ``device_second_compare_empty, ``device_comment_line_skipped,
+  ``normalize_sound, ``normalize_complete, ``normalize_injective_on_kernel, ``iptables_same_only_if_equivalent]
 
 end NA.C05
